@@ -83,6 +83,8 @@ struct Sim {
   timer_callback_t timer_cb = nullptr;
   bool timer_active = false;
   long timer_fires = 0;
+  long timer_countdown = -1;   // >=0: fire the timer callback after this many more instructions
+  long timer_dt = 0;
   std::map<std::string, long> stats;
 };
 extern Sim S;
@@ -94,3 +96,4 @@ void invariants_at_cycle();
 int  sim_main_run(const Plan &p);
 bool parse_plan(FILE *in, Plan &p, std::string &err);
 void files_init();
+void sim_fire_timer();
